@@ -9,6 +9,7 @@ import (
 	"github.com/zishang520/engine.io-go-parser/packet"
 	"github.com/zishang520/engine.io/v2/log"
 	"github.com/zishang520/engine.io/v2/types"
+	"github.com/zishang520/engine.io/v2/utils"
 	"github.com/zishang520/engine.io/v2/webtransport"
 )
 
@@ -123,10 +124,12 @@ func (w *webTransport) Send(packets []*packet.Packet) {
 }
 func (w *webTransport) send(packets []*packet.Packet) {
 	defer func() {
+		utils.VerifYield("wt.send.done")
 		w.Emit("drain")
 		w.SetWritable(true)
 		w.Emit("ready")
 	}()
+	utils.VerifYield("wt.send.begin")
 
 	w.mu.Lock()
 	defer w.mu.Unlock()
